@@ -320,7 +320,10 @@ Section Send.
          (error_body code msg) None None.
 
   (** [CriticalRequestComponents::apply_to_response] (not a stream; not for a 304, which is sent as it is —
-      C09's repair) and the 416 replacement *)
+      C09's repair 9ae9b1a) and the 416 replacement.  Since 21f0154 the replacing page also gets the [vary]
+      header of the host's rules for the request ([vary::apply_header_from_settings]); like [cache-control],
+      [content-type] and the [vary] of the other answers it is not among the headers this model carries (it has
+      no part in the framing and is not compared) *)
   Definition apply_sanitize (r : reply0) : outcome reply0 :=
     match r0_sanitize r with
     | None => Ok r
@@ -433,12 +436,22 @@ Definition unframed (r : reply0) : bool :=
   | _ => false
   end.
 
+(** the last clause of [utils::valid_method] (2dbf4ed): the first space is among the first eight bytes and what
+    precedes it is a method token ([Method::from_bytes(..).is_ok()]: not empty, token bytes) *)
+Fixpoint ext_method (fuel : nat) (seen : bool) (b : bytes) {struct b} : bool :=
+  match b with
+  | [] => false
+  | c :: r =>
+      if c =? 32 then seen
+      else match fuel with O => false | S f => is_tchar c && ext_method f true r end
+  end.
 (** [utils::valid_method] || [utils::valid_version] on the first bytes of a head *)
 Definition valid_start (s : bytes) : bool :=
   existsb (fun p => starts_with p s)
     [B "GET"; B "HEAD"; B "POST"; B "PUT"; B "DELETE"; B "TRACE"; B "OPTIONS"; B "CONNECT"; B "PATCH";
      B "COPY"; B "LOCK"; B "MKCOL"; B "MOVE"; B "PROPFIND"; B "PROPPATCH"; B "UNLOCK";
-     B "HTTP/0.9"; B "HTTP/1.0"; B "HTTP/1.1"; B "HTTP/2"; B "HTTP/3"].
+     B "HTTP/0.9"; B "HTTP/1.0"; B "HTTP/1.1"; B "HTTP/2"; B "HTTP/3"]
+  || ext_method 7 false s.
 
 Section Conn.
   Variable Q : Type.                                   (* a parsed request head *)
@@ -581,18 +594,38 @@ Fixpoint assocS (k : bytes) (l : list (bytes * (N * N * list bytes))) : option (
   | (k', v) :: r => if beq k k' then Some v else assocS k r
   end.
 (** the head a streaming handler returns (its body is empty; nothing of it is stored in the response cache) *)
-Definition stream_fat (hs : list (bytes * bytes)) : fat :=
-  {| f_status := 200; f_headers := hs; f_body := []; f_spref := SP_NONE; f_compress := false |}.
-(** [extensions::stream_body] (after the repair 4cb2e2f: the range is cut at the end of the file; before, it
-    announced [end - start] of the request's range whatever the file holds): announced length and bytes *)
-Definition stream_body_future (clamp : bool) (content : bytes) (r : request) : option N * list bytes :=
+Definition stream_fat (st : N) (hs : list (bytes * bytes)) : fat :=
+  {| f_status := st; f_headers := hs; f_body := []; f_spref := SP_NONE; f_compress := false |}.
+(** the range [extensions::stream_body] looks at: [sanitize_request(req).ok().and_then(get_range)] *)
+Definition stream_body_range (r : request) : option (N * N) :=
+  match sanitize_range (header (B "range") r) with Ok (Some x) => Some x | _ => None end.
+(** [extensions::stream_body] answers 416 ([default_error_response], no future): a range whose start is not
+    inside the file (d675f8a) *)
+Definition stream_body_416 (content : bytes) (r : request) : bool :=
+  match stream_body_range r with Some (s, _) => N.of_nat (length content) <=? s | None => false end.
+(** [extensions::stream_body], the head of its streamed answer (d675f8a): a request with a range gets 206 and
+    [content-range: bytes start-(end-1)/file_len], [end] (exclusive) cut at the end of the file - the rules of
+    [apply_to_response], which [SendKind::send] skips for a stream; without a range 200 and no [content-range] *)
+Definition stream_body_head (content : bytes) (r : request) : N * list (bytes * bytes) :=
   let flen := N.of_nat (length content) in
-  let rg := match sanitize_range (header (B "range") r) with Ok (Some x) => Some x | _ => None end in
-  let start0 := match rg with Some (s, _) => s | None => 0 end in
+  match stream_body_range r with
+  | Some (s, e0) =>
+      let e := N.min e0 flen in
+      (206, [(B "content-range", B "bytes " ++ dec s ++ B "-" ++ dec (e - 1) ++ B "/" ++ dec flen)])
+  | None => (200, [])
+  end.
+(** [extensions::stream_body]: announced length and bytes of its future; [None] = the 416 above.
+    [clamp = true] is the code as it is: since 4cb2e2f the range is cut at the end of the file (before, it
+    announced [end - start] of the request's range whatever the file holds), since d675f8a a start outside the
+    file is refused before ([clamp = false]: the code before both, kept for the refutation witness) *)
+Definition stream_body_future (clamp : bool) (content : bytes) (r : request) : option (option N * list bytes) :=
+  let flen := N.of_nat (length content) in
+  let rg := stream_body_range r in
+  if clamp && stream_body_416 content r then None else
+  let s := match rg with Some (s, _) => s | None => 0 end in
   let end0 := match rg with Some (_, e) => e | None => flen end in
   let e := if clamp then N.min end0 flen else end0 in
-  let s := if clamp then N.min start0 e else start0 in
-  (Some (e - s), [firstn (N.to_nat (N.min e flen - N.min s (N.min e flen))) (skipn (N.to_nat s) content)]).
+  Some (Some (e - s), [firstn (N.to_nat (N.min e flen - N.min s (N.min e flen))) (skipn (N.to_nat s) content)]).
 (** the future of the reply to [r], if its path is a streaming handler's *)
 Definition stream_future (clamp : bool) (streams : list (bytes * (N * N * list bytes))) (files : list (bytes * bytes))
     (r : request) : option (option N * list bytes) :=
@@ -601,7 +634,7 @@ Definition stream_future (clamp : bool) (streams : list (bytes * (N * N * list b
   | Some (kind, announced, chunks) =>
       if kind =? 0 then
         match assoc (rq_path r) files with
-        | Some content => Some (stream_body_future clamp content r)
+        | Some content => stream_body_future clamp content r
         | None => None
         end
       else if (kind =? 1) || (kind =? 3) then Some (None, chunks)
@@ -619,10 +652,14 @@ Definition compute_c08 (cfg : c8cfg) (hs : list N) (r : request) (ok : bool) : f
       (* a Prepare extension: it is run for every method *)
       if kind =? 0 then
         match assoc (rq_path r) (c8_files cfg) with
-        | Some _ => (stream_fat (with_client_cache 3 [(B "vary", B "range")]), hs, [])
+        | Some content =>
+            if stream_body_416 content r
+            then (err_fat 416 (Some (B "Range start after end of body")) SP_NONE, hs, [])
+            else let '(st, cr) := stream_body_head content r in
+                 (stream_fat st (with_client_cache 3 ((B "vary", B "range") :: cr)), hs, [])
         | None => (err_fat 404 None SP_NONE, hs, [])     (* [default_error_response]: not stored *)
         end
-      else (stream_fat (with_client_cache 3 ([(B "content-type", B "text/plain"); (B "x-tag", B "S")]
+      else (stream_fat 200 (with_client_cache 3 ([(B "content-type", B "text/plain"); (B "x-tag", B "S")]
                                              ++ (if kind =? 3 then [(s_content_length, dec announced)] else []))), hs, [])
   | None =>
   match find_handler_last (rq_path r) (cf_handlers (c8_base cfg)) O None with
